@@ -772,7 +772,7 @@ func (g *gen) tplGC() {
 	g.add(Op{Kind: "gc", PreferIndex: r.chance(60)})
 }
 
-// tplStaleIndexGC (C14, D19): remove a built target, let a full load rewrite the index without it, put the target back,
+// tplStaleIndexGC (C14, D22): remove a built target, let a full load rewrite the index without it, put the target back,
 // collect with the index-only load `dawn gc` uses, build the target: its record must still be there
 func (g *gen) tplStaleIndexGC() {
 	var cands []*Tgt
@@ -868,8 +868,10 @@ func genHistory(r *rng, prop string, nops int) *History {
 				g.tplDelGen()
 			case x < 62:
 				g.tplRename()
-			case x < 82:
+			case x < 80:
 				g.uniformEdit()
+			case x < 84:
+				g.add(Op{Kind: "gc", PreferIndex: r.chance(50)})
 			default:
 				g.uniformBuild()
 			}
@@ -894,8 +896,10 @@ func genHistory(r *rng, prop string, nops int) *History {
 				g.tplCrashInBody()
 			case x < 70:
 				g.tplFailFix()
-			case x < 88:
+			case x < 86:
 				g.uniformEdit()
+			case x < 89:
+				g.add(Op{Kind: "gc", PreferIndex: r.chance(50)})
 			default:
 				g.uniformBuild()
 			}
